@@ -29,4 +29,7 @@ Definition svt_gap (e : F) (U : list (list F)) (s : list F) (V : list (list F)) 
   let W := map (map (fun x => c *f x)) (mat_mul Op U (scale_rows Op (svt_weights t s) V)) in
   let E := mat_zip (fun m xw => m -f xw) M (mat_zip (fun x w => x +f t *f w) X W) in
   t *f ((one +f e) *f lsum Op sf -f mat_frob W X) +f mat_frob E E /f two Op.
+(* the two Gram matrices the SVD contract is about *)
+Definition gram_cols (U : list (list F)) : list (list F) := mat_mul Op (cols_of Op U) U.     (* U^T U *)
+Definition gram_rows (V : list (list F)) : list (list F) := mat_mul Op V (cols_of Op V).     (* V V^T *)
 End Gap.
